@@ -115,6 +115,29 @@ theorem bfrange_map (es : List REntry) (m : UMap) (h : es.all entryOk = true) :
     foldEntries bfrangeEntry (chop3 (es.flatMap renderREntry)) m = .ok (putAll (es.flatMap rangePairs) m) :=
   bfrange_fold es m h
 
+/-- bfrange increment in ISO 32000-1 9.10.3 wording ("the last byte of the string shall be incremented"):
+wherever that is defined (the last byte does not pass 0xFF), the carry form used by `specMap` — and by
+`tounicode_parse_spec`, hence by the parser — is exactly that string. -/
+theorem bfrange_inc (d x : Bytes) (k : Nat) (h : incLast d k = some x) : incBE d k = x :=
+  incBE_eq_incLast d x k h
+
+/-- … so for a range whose last byte never overflows, every code `lo + i` gets the destination with only its
+last byte incremented by `i`. -/
+theorem bfrange_inc_pairs (lo hi d : Bytes) (hov : ∀ i, i < nunpack hi + 1 - nunpack lo → (incLast d i).isSome) :
+    rangePairs ⟨lo, hi, .inc d⟩ =
+      (List.range (nunpack hi + 1 - nunpack lo)).map
+        (fun i => (((nunpack lo + i : Nat) : Int), utf16Ignore ((incLast d i).getD []))) := by
+  simp only [rangePairs]
+  apply List.map_congr_left
+  intro i hi'
+  have hlt := List.mem_range.mp hi'
+  obtain ⟨x, hx⟩ := Option.isSome_iff_exists.mp (hov i hlt)
+  rw [bfrange_inc d x i hx, hx]
+  rfl
+
+example : incLast [0x30, 0x42] 3 = some [0x30, 0x45] ∧ incBE [0x30, 0x42] 3 = [0x30, 0x45] ∧
+    incLast [0x00, 0xFE] 2 = none ∧ incBE [0x00, 0xFE] 2 = [0x01, 0x00] := by decide
+
 /-- non-vacuity: a program with a bfchar section (1- and 2-byte sources, a surrogate pair target), a
 bfrange increment that carries out of the low byte, and an array. -/
 def exampleSecs : List Sec :=
